@@ -575,6 +575,14 @@ def m_barrier(run):
     return f
 
 
+def m_shared_args_untouched(run):
+    """A dict of extra arguments the caller handed to several transfers is the caller's: unchanged."""
+    now, was = getattr(run, 'shared_extra', (None, None))
+    if was is not None and now != was:
+        return [f'the extra_args dict the caller passed to every transfer was changed from {was} to {now}']
+    return []
+
+
 def m_isolation(run):
     """C18: transfers not targeted by a fault/cancel succeed with correct bytes."""
     f = []
